@@ -344,6 +344,7 @@ func runC08(c *core.Ctx, o Options) {
 	c.Check(arg == "(1000000000 * time.Duration(s.LogonSettings.HeartBtInt))", "W3", "start", "heartbeat period is time.Second × negotiated HeartBtInt", w.timers[cell].Pos(), arg, "the heartbeat timer's period is "+arg)
 	checkTimerType(c, "W4")
 	// the timer is closed when the goroutine ends (no leak of the polling ticker's goroutine) — informational in C13
+	c.RuleMin = map[string]int{"W1": 2, "W2": 2, "W3": 1, "W4": 5}
 	c.MinObl = 10
 }
 
@@ -510,6 +511,7 @@ func runC09(c *core.Ctx, o Options) {
 	}
 	checkCloseChain(c, "X4")
 	checkTimerType(c, "W4")
+	c.RuleMin = map[string]int{"M1": 3, "W4": 5, "X1": 3, "X2": 1, "X3": 2, "X4": 6}
 	c.MinObl = 14
 }
 
